@@ -294,9 +294,11 @@ class TrajectoryStore:
         created: datetime | None = None
         """Creation time global attribute value."""
 
-    active_in_thread: int | None = None
-    """Thread ID of active TrajectoryStore instance, if any. Multi-threaded
-    access is not allowed. This attribute is used to check for this."""
+    active_in_thread: threading.Thread | None = None
+    """Thread of active TrajectoryStore instance, if any. Multi-threaded
+    access is not allowed. This attribute is used to check for this. (The
+    thread object is recorded, not its ID: thread IDs are reused once a thread
+    has exited.)"""
 
     _active_in_thread_lock = threading.Lock()
     """Lock that makes the check and update of `active_in_thread` in the
@@ -378,13 +380,13 @@ class TrajectoryStore:
         # their first store can both find the attribute unset.
         with TrajectoryStore._active_in_thread_lock:
             if TrajectoryStore.active_in_thread is not None:
-                if TrajectoryStore.active_in_thread != threading.get_ident():
+                if TrajectoryStore.active_in_thread is not threading.current_thread():
                     raise RuntimeError(
                         'TrajectoryStore: multiple TrajectoryStore instances '
                         'active in different threads simultaneously.'
                     )
             else:
-                TrajectoryStore.active_in_thread = threading.get_ident()
+                TrajectoryStore.active_in_thread = threading.current_thread()
 
         # File access mode for a TrajectoryStore is fixed: if you need to
         # switch mode, close and reopen the store.
